@@ -309,10 +309,11 @@ def rule_strip(ctx, F):
                                     o = st[2][2][cap[2]]
                                     tt = deep_strip(pb.term_of_operand(o))
                                     src = show(tt)
-                                    names = [pb.var_name(s[1]) for s in walk(tt) if s[0] in ("local", "phi")]
-                                    is_alt = "alt_key" in names
-                                    # the requested key is the coroutine's captured `key` upvar
-                                    ok = not is_alt and (tt[0] == "field" and tt[1] == ("arg", 1) or "key" in names)
+                                    # the requested key is what the coroutine itself captured (an upvar of its
+                                    # environment); an alternative key is built inside the coroutine
+                                    raw = pb.term_of_operand(o)
+                                    built = any(s[0] == "call" and s[1] and not re.search(r"::(clone|borrow|as_ref|deref)$", s[1]) for s in walk(raw))
+                                    ok = (tt[0] == "field" and tt[1] == ("arg", 1)) and not built
         ctx.ob(R, b, "DNSSEC stripping keyed on the requested AD flag", ok,
                "remove_dnssec is given the AD flag of %s; it must be the AD flag of the *requested* key (a DO=1 entry "
                "served to an AD=0 query would keep the AD bit)" % src, b.where(bb))
